@@ -144,24 +144,28 @@ class Job:
         """-> (observation, calls) for: target prepared with the closed subset S, then `op` of revision rev, twice."""
         calls = []
         o = {"outcome": "ok"}
-        if op == "sprout":
-            self.count += 1
-            name = "t%d" % self.count
-        else:
-            name = self.new_target()
-            src, tgt = self.open_branch("src", "src"), self.open_branch(name, "tgt")
-            for head in fc.heads_of(self.P, S):
-                tgt.repository.fetch(src.repository, revision_id=fc.rid(head))
-                calls.append(["prepare-fetch", head])
         try:
-            objs, _ = self.do_op(op, rev, name)
+            if op == "sprout":
+                self.count += 1
+                name = "t%d" % self.count
+            else:
+                name = self.new_target()
+                src, tgt = self.open_branch("src", "src"), self.open_branch(name, "tgt")
+                for head in fc.heads_of(self.P, S):
+                    calls.append(["prepare-fetch", head])      # a fetch like any other: it must complete too
+                    tgt.repository.fetch(src.repository, revision_id=fc.rid(head))
             calls.append([op, rev])
+            objs, _ = self.do_op(op, rev, name)
         except Exception as e:
             o["outcome"] = "error:%s" % type(e).__name__
-            o["detail"] = str(e)[:200]
-            calls.append([op, rev, o["outcome"]])
+            o["detail"] = "%s: %s" % (calls[-1], str(e)[:200])
             return o, calls
-        o.update(self.observe_target(name))
+        try:
+            o.update(self.observe_target(name))
+        except Exception as e:      # the target cannot even be listed after the operation
+            o["outcome"] = "error:unreadable-target:%s" % type(e).__name__
+            o["detail"] = str(e)[:200]
+            return o, calls
         again = "fetch" if op == "sprout" else op
         try:
             # the re-fetch: same objects for fetch (stale caches included), fresh objects (a new process) otherwise
@@ -225,16 +229,27 @@ def pick_cases(hist, rng, per_hist, k):
 
 
 def selftest_rows(slim):
-    """Corrupted copies of one good observation of a fetch of >= 2 revisions: (row, law that must reject it)."""
+    """Binding self-test rows: the observation the SPECIFICATION predicts for one recorded fetch of >= 2 revisions (must be
+    accepted: law None) and corrupted copies of it (each must be rejected by the named law)."""
     import copy
-    good = next((r for r in slim if r["impl"]["outcome"] == "ok" and len(fc.ancestry(r["c"]["P"], r["c"]["rev"])) >= 2
-                 and r["impl"]["ttexts"] and r["impl"]["tsigs"]), None)
-    if good is None:
+    base = next((r for r in slim if len(fc.ancestry(r["c"]["P"], r["c"]["rev"])) >= 2 and r["spec"]["sigs"]
+                 and "stest" in r["impl"]), None)
+    if base is None:
         raise core.MachineryError("binding self-test: no fetch of two or more revisions was recorded")
-    rev = good["c"]["rev"]
-    anc = fc.ancestry(good["c"]["P"], rev)
+    rev = base["c"]["rev"]
+    anc = fc.ancestry(base["c"]["P"], rev)
     other = max(anc - {rev})
-    out = []
+    o, sp = base["impl"], base["spec"]
+    held = set(sp["revs"])
+    good = {"c": base["c"], "spec": sp, "impl": {
+        "outcome": "ok", "trevs": list(sp["revs"]), "tinvs": list(sp["invs"]), "tsigs": list(sp["sigs"]),
+        "ttexts": [k for k in o["stexts"] if k[1] in held], "troot": [k for k in o["sroot"] if k[1] in held],
+        "tfp": [k for k in o["sfp"] if k[1] in held],
+        "ttest": [t if k + 1 in held else "" for k, t in enumerate(o["stest"])],
+        "ttree": [t if k + 1 in held else "" for k, t in enumerate(o["stree"])],
+        "check": "ok", "names1": "n", "names2": "n", "revs2": list(sp["revs"]), "copied2": 0,
+        "ssigs": o["ssigs"], "stexts": o["stexts"], "sroot": o["sroot"], "sfp": o["sfp"], "stest": o["stest"], "stree": o["stree"]}}
+    out = [(good, None)]
 
     def probe(law, fn):
         r = copy.deepcopy(good)
@@ -306,12 +321,19 @@ def judge(ctx, rows, selftest=True):
     by_id = {id(s): r for s, r in zip(slim, rows)}
     ctx.sample({k: rows[len(rows) // 2][k] for k in ("c", "meta")})
     # binding self-test: corrupted copies of a good observation must be rejected by the same TLC run, each by its law
-    probes = selftest_rows(slim) if selftest else []
+    probes, skipped = [], None
+    if selftest:
+        try:
+            probes = selftest_rows(slim)
+        except core.MachineryError as e:
+            skipped = str(e)
     expected = {id(p): law for p, law in probes}
-    caught = set()
+    caught = {id(p) for p, law in probes if law is None}      # the control row is caught by NOT being reported
     for srow, failed, drift in table.judge(ctx, "FetchTrace", slim + [p for p, _ in probes], chunk=4000, workers=4, timeout=3000):
         if id(srow) in expected:
-            if expected[id(srow)] in failed:
+            if expected[id(srow)] is None:
+                caught.discard(id(srow))
+            elif expected[id(srow)] in failed:
                 caught.add(id(srow))
             continue
         row = by_id[id(srow)]
@@ -329,8 +351,10 @@ def judge(ctx, rows, selftest=True):
                       {"meta": m, "c": row["c"], "spec": row["spec"],
                        "got": {k: o.get(k) for k in ("trevs", "tinvs", "ttexts", "tsigs", "stexts", "sfp")}})
     if len(caught) != len(probes):
-        ctx.machinery("binding self-test: TLC accepted %d of %d corrupted observations" % (len(probes) - len(caught), len(probes)))
-    ctx.cov["selftest_corrupted_rows_rejected"] = len(caught)
+        ctx.machinery("binding self-test: TLC misjudged %d of %d probe observations" % (len(probes) - len(caught), len(probes)))
+    if skipped and not ctx.violations:
+        ctx.machinery(skipped)
+    ctx.cov["selftest_probe_rows_judged_as_expected"] = len(caught)
     ctx.cov["traces_validated_against_impl"] -= len(probes)
     for r in rows:
         o = r["impl"]
